@@ -298,7 +298,13 @@ func (m *model) step(o Op) {
 		}
 	case "replace":
 		m.gen[o.Name]++
-		m.live[o.Name].version = m.gen[o.Name]
+		if r, live := m.live[o.Name]; live {
+			r.version = m.gen[o.Name]
+		} else {
+			// nothing to replace: the call registers the name (gorm appends it like Register would);
+			// it is then a registered, non-removed callback without a Before/After of its own
+			m.live[o.Name] = &reg{version: m.gen[o.Name]}
+		}
 	case "remove":
 		delete(m.live, o.Name)
 	}
@@ -470,11 +476,17 @@ func checkCase(c Case) string {
 	hasReplace := false
 	var without Case
 	without.Pipeline = c.Pipeline
+	wm := newModel(c.Pipeline)
 	for _, o := range c.Ops {
-		if o.Kind == "replace" {
-			hasReplace = true
-			continue
+		if o.Kind == "replace" && o.Match != "f" {
+			if _, live := wm.live[o.Name]; live {
+				hasReplace = true
+				wm.step(o)
+				continue
+			}
+			o = Op{Kind: "register", Name: o.Name} // a Replace of a name that is not registered registers it
 		}
+		wm.step(o)
 		without.Ops = append(without.Ops, o)
 	}
 	if hasReplace && len(res) == len(c.Ops) {
@@ -594,6 +606,7 @@ func hasConstraintCycle(c Case) bool {
 // The single-constraint forward reference (the plain documented use) stays in
 // the generated domain.
 func forwardRef(c Case) bool {
+	c = normalised(c)
 	constraints := 0
 	for _, o := range c.Ops {
 		if o.Kind == "register" {
@@ -655,6 +668,25 @@ func forwardRef(c Case) bool {
 		}
 	}
 	return false
+}
+
+// normalised rewrites a Replace of a name that is not registered at that point into the plain
+// Register it amounts to, and drops registrations whose Match predicate is false (not in effect).
+func normalised(c Case) Case {
+	m := newModel(c.Pipeline)
+	out := Case{Pipeline: c.Pipeline}
+	for _, o := range c.Ops {
+		if o.Match == "f" && o.Kind != "remove" {
+			m.step(o)
+			continue
+		}
+		if _, live := m.live[o.Name]; o.Kind == "replace" && !live {
+			o = Op{Kind: "register", Name: o.Name}
+		}
+		m.step(o)
+		out.Ops = append(out.Ops, o)
+	}
+	return out
 }
 
 // starAsAnchor recognises the known class `star-as-anchor`: a callback that is
@@ -770,6 +802,15 @@ func nextOps(m *model, nCustom int, reducedCombos bool) []Op {
 			liveNames = append(liveNames, c)
 		}
 	}
+	// Replace / Remove of a name that is not registered: nothing to replace (the name gets registered) /
+	// nothing to remove (no effect)
+	for _, c := range customs[:nCustom] {
+		if _, live := m.live[c]; !live {
+			ops = append(ops, Op{Kind: "replace", Name: c}, Op{Kind: "remove", Name: c})
+			break
+		}
+	}
+	ops = append(ops, Op{Kind: "remove", Name: unknown})
 	for _, n := range liveNames {
 		// registering a live name again (gorm warns "duplicated callback"): the name must still run once, latest handler
 		if r := m.live[n]; (r.before == "*" || r.after == "*") && harness.OpenClass("C17", "replace-star") {
@@ -793,7 +834,7 @@ func nextOps(m *model, nCustom int, reducedCombos bool) []Op {
 // TestC17Exhaustive enumerates every history up to VERIF_C17_LEN over the
 // alphabet of nextOps, for the pipelines of this shard.
 func TestC17Exhaustive(t *testing.T) {
-	evid.Rule("C17: histories of Register/Before/After/Replace/Remove over built-ins, customs c1-c3, an unknown name and '*' for each of the six pipelines (exhaustive to the stated length, random to length 8); non-trivial = at least two registrations carrying a Before/After that names a built-in, a custom callback or '*'; distinct = pipeline + operation sequence")
+	evid.Rule("C17: histories of Register/Before/After/Replace/Remove (also through Match(true/false), and Replace/Remove of names that are not registered) over built-ins, customs c1-c3, an unknown name and '*' for each of the six pipelines (exhaustive to the stated length, random to length 8); after every step the pipeline is executed twice - for a clean statement and for one that already carries an error - and both runs must fire the same callbacks; non-trivial = at least two registrations carrying a Before/After that names a built-in, a custom callback or '*'; distinct = pipeline + operation sequence")
 	if p := harness.ReplayPath(); p != "" {
 		replayOne(t)
 		return
